@@ -185,6 +185,24 @@ def shard(args):
             except Exception as e:
                 F.check("C17", f"defined/build{tag0}|{lname}]", False, f"{type(e).__name__}: {str(e)[:150]}")
                 continue
+            # ak.count / ak.count_nonzero of the vectors (all sampled vectors are non-zero) are those of a Cartesian component column: missing
+            # *elements* are not counted, whatever level the option type sits at
+            for cfn, cnm in ((ak.count, "ak.count"), (ak.count_nonzero, "ak.count_nonzero")):
+                for axis in axes + (None,):
+                    for keepdims in (False, True):
+                        if axis is None and keepdims:
+                            continue
+                        tag = f"{cnm}(axis={axis},keepdims={keepdims}){tag0}|{lname}]"
+                        try:
+                            exp = ak.to_list(cfn(comps[0], axis=axis, keepdims=keepdims))
+                        except Exception:
+                            continue
+                        try:
+                            with np.errstate(all="ignore"):
+                                got = ak.to_list(cfn(arr, axis=axis, keepdims=keepdims))
+                            F.check("C17", f"counts-elements/{tag}", got == exp, dict(got=str(got)[:120], expected=str(exp)[:120]))
+                        except Exception as e:
+                            F.check("C17", f"defined/{tag}", False, f"{type(e).__name__}: {str(e)[:150]}")
             for axis in axes:
                 for keepdims in (False, True):
                     for mask_identity in (False, True):
